@@ -14,7 +14,7 @@ Inductive c13case :=
 
 Definition check_c13 (c : c13case) : list nat :=
   match c with
-  | C13Step cc => (if agrees cc then [] else [1%nat]) ++ reasons_in [3; 4; 5; 6; 7; 8]%nat cc
+  | C13Step cc => (if agrees cc then [] else [1%nat]) ++ reasons_in [3; 4; 5; 6; 7; 8; 10]%nat cc
   | C13Surplus results =>
       (* an answered call reports exactly the data addressed to it; an unanswered one never reports success *)
       (if forallb (fun r => match r with (own, got, ans) => if 0 <=? got then (ans =? 1) && (got =? own) else true end) results then [] else [5%nat]) ++
